@@ -183,7 +183,8 @@ func c02(args []string) int {
 	layers := []Layer{
 		// snapshots, compactions and syncs right after litestream was restarted on a WAL it had already copied
 		{Name: "seeded/base/after-restart", Cfg: base, Alphabet: strings.Fields("S SW FSNAP SNAP CMP:1 W1 U"), Depth: d(2, 3),
-			Seeds: [][]string{strings.Fields("W3 SW LC:TRUNCATE W1 SW KILL NEW"), strings.Fields("W3 SW W1 SW CL START"), strings.Fields("W3 SW LC:PASSIVE U SW W1 SW KILL NEW")}},
+			Seeds: [][]string{strings.Fields("W3 SW LC:TRUNCATE W1 SW KILL NEW"), strings.Fields("W3 SW W1 SW CL START"), strings.Fields("W3 SW LC:PASSIVE U SW W1 SW KILL NEW"),
+				strings.Fields("W3 SW LC:PASSIVE W1 SW KILL NEW S")}}, // the restarted litestream's first sync found nothing to copy
 		// litestream is down while the application commits a (multi-frame) transaction behind the synced position,
 		// backfills it and restarts the WAL with something shorter: the file written after the restart must be one
 		// committed state, not the old position plus the new generation
